@@ -2,6 +2,7 @@ import Driver.Scalar
 import Driver.Arrays
 import Driver.Bits
 import Driver.Packed
+import Driver.BitmapOps
 /- vdriver: reads one operation per line, prints the model's canonical result line. -/
 open Driver
 
@@ -18,7 +19,9 @@ def runLine (line : String) : String :=
         | some r => r
         | none => match packedOp toks with
           | some r => r
-          | none => "bad-op"
+          | none => match bitmapOp toks with
+            | some r => r
+            | none => "bad-op"
 
 partial def loop (h : IO.FS.Stream) (out : IO.FS.Stream) : IO Unit := do
   let line ← h.getLine
